@@ -1250,3 +1250,27 @@ Proof.
   split; [exact Hin|]. split; [exact He|].
   pose proof (wf_invariant t0 f0 ops Hf) as [_ [_ [[_ Hr] _]]]. apply Hr. exact Hin.
 Qed.
+
+(* ================================================================== what a committing transaction writes *)
+(* Whenever a transaction commits a snapshot, that snapshot lists exactly: the base snapshot's entries that no
+   queued delete names (path, adding snapshot, sequence number unchanged, order kept), followed by one ADDED entry
+   per appended file, stamped with the new snapshot's id and sequence number. *)
+Theorem txn_snapshot_files : forall st ops id t tu f st' s,
+  step_full st (Txn ops id t tu f) = (st', Committed, Some s) ->
+  exists base, base_manifests (md st) = Some base /\
+    sid s = id /\ seq s = last_seq (md st) + 1 /\
+    map ekey (entries (mlist s)) =
+      map ekey (filter (fun e => negb (named (tx_dels ops) e)) (entries base))
+      ++ map (fun p => (p, id, last_seq (md st) + 1)) (tx_adds ops).
+Proof.
+  intros st ops id t tu f st' s H.
+  destruct (step_full_txn st ops id t tu f) as [[_ E]|[E|E]]; rewrite E in H.
+  - discriminate.
+  - unfold txn_metaonly in H. discriminate.
+  - unfold txn_fileops in H. destruct (base_manifests (md st)) as [base|]; [|discriminate]. cbv zeta in H.
+    destruct (create_snapshot _ _ _ _ _); [|discriminate]. inversion H; subst. clear H.
+    exists base. split; [reflexivity|]. split; [reflexivity|]. split; [reflexivity|].
+    unfold new_snap. simpl. unfold entries. rewrite concat_app, map_app.
+    fold (entries (apply_deletes (tx_dels ops) base)). fold (entries (append_manifest id (last_seq (md st) + 1) (tx_adds ops))).
+    rewrite apply_deletes_keys, append_manifest_entries, map_map. reflexivity.
+Qed.
